@@ -92,6 +92,13 @@ def veitchBody {n : Nat} (c : VeitchCfg α n) (accepted : Bool) (dk : Int) (std 
     Vector α n :=
   Vector.ofFn fun i : Fin n => veitchComp (veitchAlpha c.xi accepted) (c.gain dk) c.deltas[i] std[i]
 
+/-- `setup_adaptation(initial_std=None)`: the documented default initial widths
+    `(1 - target_rate) * 0.09 * prior_width`.  A user-supplied `initial_std` is a free initial
+    condition: any vector, one entry per parameter, in no fixed proportion to the prior widths
+    (the guard of `veitchComp` is therefore decided for every parameter separately). -/
+def veitchDefaultStd {n : Nat} (xi : α) (deltas : Vector α n) : Vector α n :=
+  Vector.ofFn fun i : Fin n => (1 - xi) * ((10 - 1) / (10 * 10)) * deltas[i]
+
 /-! ## Sivia–Skilling (`SSAdaptiveSupport._update`, no window) -/
 
 structure SSCfg (α : Type) where
